@@ -16,10 +16,14 @@
 //!                  via 1: `spawner().gate(name, 1)`), at most 60 gates per module                -> 12 position+1 | 12 0
 //!      | 12 m      the rest of the script runs at run time, inside at_sim_start of module m mod nmod: the global
 //!                  view comes from Topology::current() / des::net::globals(), modules from globals().get(..) -> 13 switched?
+//!      | 13 m kind (declaration, -> 14 0) during the run-time part module m_m is down: in start-up stage 0 it calls
+//!                  shutdown() (kind 0), shutdow_and_restart_in(5 s) (kind 1) or panics with a catching stereotype (kind 2);
+//!                  the run-time operations execute in stage 1, inside a module that stays up; the runner verifies
+//!                  that the declared modules really are inactive then (666 otherwise)
 //! output: view = 1 nn module{nn} ne (src sm sg em eg dst){ne} | dijkstra = 3 nn (0 | 1 src sm sg em eg dst){nn}
 //!   | 4 b | 5 b | edges_for = 6 ne (..){ne} | 7 (no such root) | 9 1 (dijkstra: unknown node)
 //! Node indices are positions in `nodes()`; an edge end is printed as the position of its node's module.
-use des::net::module::{ModuleId, ModuleRef};
+use des::net::module::{ModuleId, ModuleRef, Stereotyp};
 use des::net::topology::{Edge, Topology};
 use des::net::SimBuilder;
 use des::prelude::*;
@@ -44,6 +48,7 @@ enum Op {
     Connect(Vec<u64>),
     NewGate(u64, u64),
     Runtime(u64),
+    Down(u64, u64),
 }
 
 struct State {
@@ -58,6 +63,8 @@ struct State {
     rt: bool,
     executor: usize,
     late: usize,
+    /// modules that go down in start-up stage 0 of the run-time part, with the way they do
+    down: Vec<(usize, u64)>,
     out: Vec<u64>,
 }
 
@@ -65,16 +72,49 @@ struct State {
 struct Node {
     idx: usize,
     st: Arc<Mutex<Option<State>>>,
+    started: bool,
 }
 
 impl Module for Node {
+    fn num_sim_start_stages(&self) -> usize {
+        2
+    }
+
     fn at_sim_start(&mut self, stage: usize) {
-        if stage != 0 {
+        if self.started && stage == 0 {
+            return; // a restart: stay up this time
+        }
+        if stage == 0 {
+            self.started = true;
+            let how = {
+                let guard = self.st.lock().unwrap();
+                guard.as_ref().and_then(|st| {
+                    if st.rt && st.executor != self.idx {
+                        st.down.iter().find(|d| d.0 == self.idx).map(|d| d.1)
+                    } else {
+                        None
+                    }
+                })
+            };
+            match how {
+                Some(0) => current().shutdown(),
+                Some(1) => current().shutdow_and_restart_in(Duration::from_secs(5)),
+                Some(_) => {
+                    current().set_stereotyp(Stereotyp { on_panic_catch: true, ..Stereotyp::HOST });
+                    panic!("scripted panic");
+                }
+                None => {}
+            }
             return;
         }
         let mut guard = self.st.lock().unwrap();
         if let Some(st) = guard.as_mut() {
-            if st.rt && st.executor == self.idx {
+            if st.rt && st.executor == self.idx && st.next < st.ops.len() {
+                // the declared modules must be down by now
+                let all_down = st.down.iter().all(|d| d.0 == st.executor || !st.mods[d.0].is_active());
+                if !all_down || !st.mods[st.executor].is_active() {
+                    st.out.push(666);
+                }
                 while st.next < st.ops.len() {
                     exec(st, None);
                 }
@@ -289,6 +329,13 @@ fn exec(st: &mut State, sim: Option<&mut SimBuilder<()>>) {
                 st.out.extend([13, 1]);
             }
         }
+        Op::Down(m, kind) => {
+            let m = (*m).min(255) as usize;
+            if !st.rt && m < nm && !st.down.iter().any(|d| d.0 == m) {
+                st.down.push((m, (*kind).min(255) % 3));
+            }
+            st.out.extend([14, 0]);
+        }
     }
     st.ops[i] = op;
 }
@@ -300,7 +347,7 @@ fn parse_ops(cur: &mut Cur) -> Vec<Op> {
         let need = match tag {
             1 | 4 | 5 | 9 | 10 => 1,
             2 | 3 | 6 | 7 | 8 | 12 => 2,
-            11 => 3,
+            11 | 13 => 3,
             _ => break,
         };
         if cur.left() < need {
@@ -322,7 +369,11 @@ fn parse_ops(cur: &mut Cur) -> Vec<Op> {
                 let m = cur.next();
                 Op::NewGate(m, cur.next())
             }
-            _ => Op::Runtime(cur.next()),
+            12 => Op::Runtime(cur.next()),
+            _ => {
+                let m = cur.next();
+                Op::Down(m, cur.next())
+            }
         });
     }
     ops
@@ -347,7 +398,7 @@ fn run_line(nums: &[u64]) -> Vec<u64> {
         let _ = ModuleId::gen();
     }
     for i in 0..nm {
-        sim.node(format!("m{i}"), Node { idx: i, st: shared.clone() });
+        sim.node(format!("m{i}"), Node { idx: i, st: shared.clone(), started: false });
     }
     let mut gates: Vec<Vec<GateRef>> = Vec::new();
     for (i, c) in counts.iter().enumerate() {
@@ -372,6 +423,7 @@ fn run_line(nums: &[u64]) -> Vec<u64> {
         rt: false,
         executor: 0,
         late: 0,
+        down: Vec::new(),
         out: vec![10, nm as u64, distinct as u64, nulls as u64],
     };
 
